@@ -44,6 +44,9 @@ func (w *Worker) newBig(t *Term) Value {
 
 // truncated division helpers on SMT ints (SMT div/mod are Euclidean)
 func intQuoTrunc(x, y *Term) *Term {
+	if r := bvBackedQuoRem(false, x, y); r != nil {
+		return r
+	}
 	// Go Quo: truncated toward zero
 	q := IntBin(OIDiv, x, y) // euclidean: x = y*q + r, 0<=r<|y|
 	r := IntBin(OIMod, x, y)
@@ -53,6 +56,9 @@ func intQuoTrunc(x, y *Term) *Term {
 }
 
 func intRemTrunc(x, y *Term) *Term {
+	if r := bvBackedQuoRem(true, x, y); r != nil {
+		return r
+	}
 	r := IntBin(OIMod, x, y)
 	// truncated remainder has sign of x
 	return Ite(And(ILt(x, IntI(0)), Not(Eq(r, IntI(0)))), IntBin(OISub, r, IAbs(y)), r)
@@ -283,6 +289,18 @@ func registerBigIntrinsics(in map[string]Intrinsic) {
 			y := w.bigOf(g, a[2])
 			if y == nil {
 				return nil, ctlStay
+			}
+			// both operands are values of bit-vectors: the operation is the bit-vector one on the
+			// sign-extended operands (two's complement semantics of math/big's And/Or/Xor)
+			if xa, oka := asSignedBV(x); oka && !(x.IsConst() && y.IsConst()) {
+				if xb, okb := asSignedBV(y); okb {
+					wd := xa.S.W
+					if xb.S.W > wd {
+						wd = xb.S.W
+					}
+					w.bigSet(g, a[0], BV2IntSigned(BvBin(op, SExt(xa, wd), SExt(xb, wd))))
+					return a[0], ctlNext
+				}
 			}
 			// exact arithmetic forms for constant masks (two's complement identities)
 			if r, ok := bitopConst(op, x, y); ok {
